@@ -288,11 +288,23 @@ def unique(run, F):
         run.ob('UNQ.table', fn, 'Keep::Last: the first element is null-tested before it seeds the run state',
                bool(tests), fn.loc(), '%d element-level null test(s) before the pipeline' % len(tests))
     fn = F.one('MapValidBasic::vsorted_unique')
-    cls = [x for x in walk(fn.hir) if x.get('k') == 'Closure']
+    # the element closure is the outermost closure of the body with Option combinators written
+    # as the control flow they abbreviate
+    import pinned as _pinned
+    from facts import children as _children
+    xroot = _pinned.expand_options(fn.hir)
+
+    def _tops(e):
+        if e.get('k') == 'Closure':
+            yield e
+            return
+        for c in _children(e):
+            yield from _tops(c)
+    cls = list(_tops(xroot))
     want = T((['VALID(a0)', 'VALID(value)', '(a0 != value)'], 'Some(IsNone::from_inner(a0))', ['value = Some(a0)']),
              (['VALID(a0)', 'VALID(value)', '(a0 == value)'], 'NULL', []),
              (['VALID(a0)', '!VALID(value)'], 'Some(IsNone::from_inner(a0))', ['value = Some(a0)']),
              (['!VALID(a0)'], 'NULL', []))
     if cls:
-        t = dtree.closure_table(fn.hir, cls[0], N.self_env(fn))
+        t = dtree.closure_table(xroot, cls[0], N.self_env(fn))
         run.ob('UNQ.table', fn, 'unique-value closure', t == want, loc(cls[0]), 'table %s' % dtree.show(t))
